@@ -4,6 +4,7 @@ import (
 	"go/ast"
 	"go/token"
 	"go/types"
+	"sort"
 
 	"verifcheck/core"
 )
@@ -278,9 +279,26 @@ func ruleUseLoadedBalanced(c *Ctx, m *schedModel, rule string) {
 			}
 			return 0
 		}, nil)
-		for loc, h := range hands {
-			c.Check(rule, f.Key()+" exit balanced", "exit", h == incs[loc] && h == fins[loc] && (h == 2 || h == 1),
-				"on every path: hand-outs == increments == finish-poster goroutines (each exactly 0 or exactly 1); masks hand-out="+itoa(int(h))+" inc="+itoa(int(incs[loc]))+" finish-poster="+itoa(int(fins[loc])))
+		// one obligation over all exits, visited in block order (the evidence must not depend on map order)
+		locs := make([]core.Loc, 0, len(hands))
+		for loc := range hands {
+			locs = append(locs, loc)
+		}
+		sort.Slice(locs, func(i, j int) bool {
+			if locs[i].B.Index != locs[j].B.Index {
+				return locs[i].B.Index < locs[j].B.Index
+			}
+			return locs[i].I < locs[j].I
+		})
+		ok, masks := true, ""
+		for _, loc := range locs {
+			h := hands[loc]
+			ok = ok && h == incs[loc] && h == fins[loc] && (h == 2 || h == 1)
+			masks += " [hand-out=" + itoa(int(h)) + " inc=" + itoa(int(incs[loc])) + " finish-poster=" + itoa(int(fins[loc])) + "]"
+		}
+		if len(locs) > 0 {
+			c.Check(rule, f.Key()+" exit balanced", "exit", ok,
+				"on every path: hand-outs == increments == finish-poster goroutines (each exactly 0 or exactly 1); masks per exit:"+masks)
 		}
 	}
 }
